@@ -1,14 +1,17 @@
 import GolibsVerif.Driver.Util
 import GolibsVerif.Model.C13
 import GolibsVerif.Spec.C13
+import GolibsVerif.Go.Unicode
 
 /-!
 Line protocol of C13 (byte strings in hex, `-` = empty; runes in hex without prefix):
 
-* `C13.cf <s> <sub> <orbits>`      `ContainsFold(s, sub)`; `<orbits>` is the oracle field: the
-  `unicode.SimpleFold` cycles of every rune that can be decoded at any byte offset of `s`
-  or `sub`, plus U+FFFD, as `a:b:c,d,e:f` (`a→b→c→a`, `d→d`, …).  The model's `fold` is
-  this finite table; a rune outside it is `ORACLE-MISS`.
+* `C13.cf <s> <sub> <orbits>`      `ContainsFold(s, sub)` with `fold := Unicode.simpleFold`, the model
+  of `unicode.SimpleFold` (`Go/Unicode.lean`) — the function the `…_unicode` theorems are about.
+  `<orbits>` is the oracle field: the real `unicode.SimpleFold` cycles of every rune that can
+  be decoded at any byte offset of `s` or `sub`, plus U+FFFD, as `a:b:c,d,e:f` (`a→b→c→a`,
+  `d→d`, …).  The field must cover those runes (`ORACLE-MISS` otherwise) and the model must
+  agree with it entry by entry (`ORACLE-DISAGREES` otherwise).
 * `C13.st <s> <sep>`               `SplitTrimmed(s, sep)` → `nonnil[p,q,…]` / `nil[]`
 * `C13.std.dec <s>`                `DecodeRuneInString`, `DecodeLastRuneInString`
 * `C13.std.runes <s>`              `range s`, `utf8.ValidString`, absence of U+FFFD
@@ -17,6 +20,9 @@ Line protocol of C13 (byte strings in hex, `-` = empty; runes in hex without pre
 * `C13.std.trim <s>`               `strings.TrimSpace`
 * `C13.std.split <s> <sep>`        `strings.Split`
 * `C13.std.fold1 <orbits>`         the ASCII clause of FOLD-1 on the shipped table
+* `C13.std.simplefold <lo> <hi>`   the model `Unicode.simpleFold` on the runes `[lo, hi)`: the pairs
+  `r:f` with `f = SimpleFold(r) ≠ r`, comma-separated (`-` if there are none).  The harness
+  generates cases that cover every rune `0 … MaxRune` and values above, on every run.
 -/
 
 namespace GolibsVerif.Driver.C13
@@ -59,6 +65,9 @@ def runesAtOffsets (s : Bytes) : List Nat :=
 def covered (tbl : List (Nat × Nat)) (ss : List Bytes) : Bool :=
   (RuneError :: ss.flatMap runesAtOffsets).all fun r => (tbl.lookup r).isSome
 
+/-- the model of `unicode.SimpleFold` agrees with the oracle table on every entry -/
+def agrees (tbl : List (Nat × Nat)) : Bool := tbl.all fun e => Unicode.simpleFold e.1 == e.2
+
 def showGoMBool : GoM Bool → String
   | .ok b => showBool b
   | .error e => showPanic e
@@ -72,7 +81,9 @@ def cf (args : List String) : String :=
   | [s, sub, orb] =>
     match hexDecode s, hexDecode sub, parseOrbits orb with
     | some s, some sub, some tbl =>
-      if covered tbl [s, sub] then showGoMBool (containsFold (tableFold tbl) s sub) else "ORACLE-MISS"
+      if !covered tbl [s, sub] then "ORACLE-MISS"
+      else if !agrees tbl then "ORACLE-DISAGREES"
+      else showGoMBool (containsFold Unicode.simpleFold s sub)
     | _, _, _ => "bad-op"
   | _ => "bad-op"
 
@@ -106,7 +117,9 @@ def stdEf (args : List String) : String :=
   | [s, t, orb] =>
     match hexDecode s, hexDecode t, parseOrbits orb with
     | some s, some t, some tbl =>
-      if covered tbl [s, t] then showBool (equalFold (tableFold tbl) s t) else "ORACLE-MISS"
+      if !covered tbl [s, t] then "ORACLE-MISS"
+      else if !agrees tbl then "ORACLE-DISAGREES"
+      else showBool (equalFold Unicode.simpleFold s t)
     | _, _, _ => "bad-op"
   | _ => "bad-op"
 
@@ -141,6 +154,19 @@ def stdFold1 (args : List String) : String :=
     | none => "bad-op"
   | _ => "bad-op"
 
+/-- at most this many runes per `C13.std.simplefold` case -/
+def simpleFoldMaxSpan : Nat := 0x10000
+
+def stdSimpleFold (args : List String) : String :=
+  match args.map hexNat? with
+  | [some lo, some hi] =>
+    if hi < lo || hi - lo > simpleFoldMaxSpan then "bad-op" else
+    let moved := (List.range' lo (hi - lo)).filterMap fun r =>
+      let f := Unicode.simpleFold r
+      if f = r then none else some (hexNat r ++ ":" ++ hexNat f)
+    if moved.isEmpty then "-" else joinWith "," moved
+  | _ => "bad-op"
+
 def handle (op : String) (args : List String) : Option String :=
   match op with
   | "C13.cf" => some (cf args)
@@ -152,6 +178,7 @@ def handle (op : String) (args : List String) : Option String :=
   | "C13.std.trim" => some (stdTrim args)
   | "C13.std.split" => some (stdSplit args)
   | "C13.std.fold1" => some (stdFold1 args)
+  | "C13.std.simplefold" => some (stdSimpleFold args)
   | _ => none
 
 end GolibsVerif.Driver.C13
